@@ -187,6 +187,32 @@ J gen_tunnel(uint64_t seed, const J &ov)
 		cfg.set("faults", f);
 		cfg.set("dur_s", (int)(W + 40));
 		cfg.set("tmax_s", 700);
+	} else if (mode == "stale") {
+		// C01 under *old* duplicates: a clean path except that an answer carrying data of a packet 4-7 sequence numbers back (which
+		// the 3-bit numbering cannot tell from a new one) is delivered again between two fragments of a multi-fragment packet.
+		// The frames include incompressible ones that carry complete zlib streams aligned with the fragment boundaries, so that a
+		// packet re-assembled without its beginning would still inflate.
+		double W = 15 + r.uniform() * 25;
+		int F = (int)(r.chance(0.7) ? r.range(40, 200) : r.range(200, 600));
+		{ J cl2 = cfg["clients"]; cl2.a[0].set("fragsize", F); cl2.a[0].set("raw", false); cfg.set("clients", cl2); }
+		int n = (int)r.range(25, 70);
+		double t = 0.2;
+		for (int i = 0; i < n; i++) {
+			t += r.chance(0.5) ? r.uniform() * 0.3 : r.uniform() * 1.5;
+			if (t > W) t = 0.2 + r.uniform() * W;
+			J op = J::obj(); op.set("t", (long long)(t * 1e6)); op.set("op", "tun"); op.set("at", "srv"); op.set("ser", (long long)++ser);
+			op.set("dst", "c0"); op.set("src", "ext");
+			if (r.chance(0.45)) { op.set("len", (int)r.range(2 * F + 20, std::min(14 * F, 1500))); op.set("body", "nested"); if (r.chance(0.8)) op.set("align", r.chance(0.5) ? J("auto") : J(F)); }
+			else { op.set("len", (int)r.range(40, std::max(41, F - 30))); static const char *bodies[4] = {"rnd", "zero", "ff", "text"}; op.set("body", bodies[r.range(0, 3)]); }
+			ops.push(op);
+		}
+		gen_traffic(r, ops, "c0", "srv", (int)r.range(5, 25), 0.1, W, ser, 1200, true);
+		J f = J::obj();
+		f.set("ref", "T0"); f.set("t0_us", (long long)0); f.set("t1_us", (long long)(W * 1e6));
+		f.set("p_stale", 0.3 + r.uniform() * 0.7);
+		cfg.set("faults", f);
+		cfg.set("dur_s", (int)(W + 30));
+		cfg.set("tmax_s", 600);
 	} else if (mode == "inject9") {
 		// C09 pairing (ii): the downstream data channel is driven by the reference encoder (sim/injector.cc); the real client's
 		// own upstream traffic continues so that both header bytes are in use
@@ -249,6 +275,7 @@ J gen_tunnel(uint64_t seed, const J &ov)
 		f.set("p_rd_newid", r.chance(0.7) ? r.uniform() : 0.0);
 		f.set("p_rd_recase", b32 && r.chance(0.7) ? r.uniform() * 0.8 : 0.0);
 		f.set("p_rd_altsrc", r.chance(0.4) ? r.uniform() * 0.3 : 0.0);
+		f.set("p_rd_altport", r.chance(0.5) ? r.uniform() * 0.5 : 0.0);
 		// copies that ask the same name with ANOTHER query type are new questions, not repeats: only in the jobs of C10/C14
 		// (every answer must echo the id/name/type of a distinct received query), never under the C16 oracles
 		if (ov.getb("retype")) f.set("p_rd_retype", r.chance(0.7) ? 0.05 + r.uniform() * 0.4 : 0.0);
@@ -322,6 +349,7 @@ World *build_tunnel(const J &plan)
 	if (mode == "redeliver") { w->add(mk_c02_delivery(w, true, false, "C16")); w->add(mk_c16_redeliver(w)); }
 	else if (mode == "relayfam") w->add(mk_c02_delivery(w, true, false, "C11"));
 	else if (mode == "inject9") w->add(install_injector(w));
+	else if (mode == "stale") w->add(mk_stale_dup(w));
 	else if (mode == "clean9") { w->add(mk_c02_delivery(w, true, false, "C09")); w->add(mk_c09_probe_judge(w)); }
 	else if (mode == "names") { w->add(mk_c02_delivery(w, true, false, "C02")); w->add(mk_c08_names(w)); }
 	else w->add(mk_c02_delivery(w, mode == "clean", mode == "recover"));
@@ -368,6 +396,7 @@ World *build_tunnel(const J &plan)
 		if (mode == "faulty") nt = nt && fault;
 		if (mode == "clean" || mode == "clean9") nt = nt && ww->probes["c02.acc_c"] >= 5 && ww->probes["c02.acc_s"] >= 5;
 		if (mode == "recover") nt = nt && fault;
+		if (mode == "stale") nt = ww->all_in_tunnel && ww->S.counters.count("fault.stale_dup") && ww->S.counters["fault.stale_dup"] >= 1;
 		if (mode == "redeliver") nt = nt && ww->probes["c16.redelivered"] >= 1;
 		if (mode == "inject9") nt = ww->all_in_tunnel && ww->probes["c09.inj_packets_acked"] >= 3;
 		if (mode == "names") nt = ww->all_in_tunnel && ww->probes["c08.full_chunks"] >= 1 && ww->probes["c08.tail_chunks"] >= 1;
